@@ -1190,6 +1190,13 @@ class _Simu(_IObserver, _params.Updatable, ABC):
         >>> u = simu.Solve()
         """
         self.__algo = AlgoType.elliptic
+        self.__Solver_Time_scheme_changed()
+
+    def __Solver_Time_scheme_changed(self) -> None:
+        # the local system of a non-linear problem is written for the time scheme (inertia and
+        # damping terms of the residual, evaluation time): it is assembled again
+        if self.isNonLinear:
+            self.Need_Update()
 
     def Solver_Set_Parabolic_Algorithm(self, dt: float, alpha=1 / 2) -> None:
         r"""Sets the algorithm's resolution properties for a parabolic problem.
@@ -1224,6 +1231,7 @@ class _Simu(_IObserver, _params.Updatable, ABC):
         assert dt > 0, "Time increment must be > 0"
 
         self.__parabolicParams = (dt, alpha)
+        self.__Solver_Time_scheme_changed()
 
     def __Solver_Get_Parabolic_Params(self) -> tuple[float, float]:
         """Returns (dt, alpha) parbolic scheme properties."""
@@ -1300,6 +1308,7 @@ class _Simu(_IObserver, _params.Updatable, ABC):
             assert 0 <= alpha < 1
 
         self.__hyperbolicParams = (dt, beta, gamma, alpha)
+        self.__Solver_Time_scheme_changed()
 
     def __Solver_Get_Hyperbolic_Params(self) -> tuple[float, float, float, float]:
         """Returns (dt, beta, gamma, alpha) hyperbolic scheme properties."""
